@@ -32,6 +32,14 @@ def build(ex, st, shape, xbits):
         init = ab.some(ab.enum('Expression', 'Unary', un))
     else:
         init = ab.none()
+    if shape in ('literal3', 'auto3', 'mid3'):
+        # thorough: three members - { A = x, B, C }, { A, B, C }, { A, B = x, C }
+        lit = ab.some(ab.number_literal(x))
+        inits = {'literal3': [lit, ab.none(), ab.none()], 'auto3': [ab.none(), ab.none(), ab.none()], 'mid3': [ab.none(), lit, ab.none()]}[shape]
+        ms = [ab.struct('EnumMember', id=ab.ident('M%d' % i), initializer=ini) for i, ini in enumerate(inits)]
+        decl = ab.struct('EnumDeclaration', id=ab.ident('E'), members=VecV(ms, 'EnumMember'), const_=Bool(False))
+        comp = st.alloc(Agg('struct', 'Compiler', {}, lazy=True))
+        return Ref(comp), ab.ref(decl)
     ma = ab.struct('EnumMember', id=ab.ident('A'), initializer=init)
     mb = ab.struct('EnumMember', id=ab.ident('B'), initializer=ab.none())
     decl = ab.struct('EnumDeclaration', id=ab.ident('E'), members=VecV([ma, mb], 'EnumMember'), const_=Bool(False))
@@ -60,7 +68,7 @@ def ts_emit(shape, x):
 
 
 def run(rep):
-    rep.bounds = dict(members=2, initializer='any f64 literal / negated literal / none', loops='member loop unrolled for 2 members')
+    rep.bounds = dict(members='2 (thorough: also 3)', initializer='any f64 literal / negated literal / none', loops='member loop unrolled for 2 members')
     rep.assumptions = [
         'BytecodeBuilder methods are recorded as events (alloc_register succeeds); compile_enum_init_expression is havoc\'d (it compiles the initialiser expression itself)',
         'numeric literals are non-negative, finite or +Infinity doubles (what the lexer produces)',
@@ -77,7 +85,8 @@ def run(rep):
         got = vmarms.reply_value(o) if not (o.get('ok') and o['value']['t'] == 'string') else o['value']['v']
         if got != want:
             concrete_bad.append((s, want, got))
-    for shape in ('literal', 'negated', 'auto'):
+    shapes = ('literal', 'negated', 'auto') + (('literal3', 'auto3', 'mid3') if rep.tier == 'thorough' else ())
+    for shape in shapes:
         ex = common.executor(unwind=5)
         astb.install_rc_models(ex)
         astb.BuilderStub(ex)
@@ -112,6 +121,13 @@ def run(rep):
             a_want, b_want = (z3.FPVal(0.0, F64), z3.FPVal(1.0, F64)) if shape == 'auto' else (
                 (x, z3.fpAdd(RNE, x, z3.FPVal(1.0, F64))) if shape == 'literal' else (z3.fpNeg(x), z3.fpAdd(RNE, z3.fpNeg(x), z3.FPVal(1.0, F64))))
             expect = [b_want] if shape != 'auto' else [a_want, b_want]
+            one = z3.FPVal(1.0, F64)
+            if shape == 'literal3':
+                expect = [z3.fpAdd(RNE, x, one), z3.fpAdd(RNE, z3.fpAdd(RNE, x, one), one)]
+            elif shape == 'auto3':
+                expect = [z3.FPVal(0.0, F64), one, z3.FPVal(2.0, F64)]
+            elif shape == 'mid3':
+                expect = [z3.FPVal(0.0, F64), z3.fpAdd(RNE, x, one)]
             goals = []
             if len(loads) != len(expect):
                 goals.append(('one auto-increment load per member without initialiser', z3.BoolVal(False)))
@@ -123,7 +139,8 @@ def run(rep):
             sp = ex.variant_index('Op', 'SetPropertyConst')
             rv = ex.variant_index('Op', 'SetProperty')
             stores = [('fwd' if ev[1].discr == sp else 'rev') for ev in e.st.events if ev[0] == 'emit' and isinstance(ev[1], EnumV) and ev[1].discr in (sp, rv)]
-            goals.append(('forward and reverse mappings stored for both members in declaration order', z3.BoolVal(stores == ['fwd', 'rev', 'fwd', 'rev'])))
+            nmem = 3 if shape.endswith('3') else 2
+            goals.append(('forward and reverse mappings stored for every member in declaration order', z3.BoolVal(stores == ['fwd', 'rev'] * nmem)))
             for label, g in goals:
                 t = time.time()
                 r, m = ex.check_sat_pc(e.st.pc, [z3.Not(g)])
@@ -148,7 +165,16 @@ def report(rep, m, xbits, shape, label):
     x = vmarms.bits_f64(bits)
     lit = 'Infinity' if math.isinf(x) else repr(x)
     src = 'enum E { A = %s%s, B }; E.B' % ('-' if shape == 'negated' else '', lit) if shape != 'auto' else 'enum E { A, B }; E.B'
-    a, b = ts_emit(shape, x)
+    a, b = ts_emit(shape if not shape.endswith('3') else 'literal', x)
+    if shape == 'literal3':
+        src = 'enum E { A = %s, B, C }; E.C' % lit
+        b = x + 1.0 + 1.0
+    elif shape == 'auto3':
+        src = 'enum E { A, B, C }; E.C'
+        b = 2.0
+    elif shape == 'mid3':
+        src = 'enum E { A, B = %s, C }; E.C' % lit
+        b = x + 1.0
     outs = [driver.replay([{'cmd': 'eval', 'src': src}], prof)[0] for prof in ('dev', 'release')]
     rep.validated += 2
     gots = [vmarms.reply_value(o) for o in outs]
